@@ -7,6 +7,8 @@
 import Stfs.Proofs.FsPres
 import Stfs.Model.Trig
 import Stfs.Proofs.Depth
+import Stfs.Proofs.KeysUnique
+import Stfs.Proofs.SysPres
 import Stfs.Gen.Fingerprints
 namespace Stfs.C13
 open Stfs
@@ -172,14 +174,176 @@ example : selected (n!"/a/b/") 0 (n!"/a/b/c") = true ∧ selected (n!"/a/b/") 0 
     selected (n!"/a/b/") 0 (n!"/a/b/c/d") = false ∧
     noOcc (n!"/a/b/") (n!"x/a/b/y") = false ∧ selected (n!"/a/b/") 0 (n!"/a/b/x/a/b/y") = true := by decide
 
+/-- (5) Every listed name can be looked up: a row the name-keyed query of a listing returns
+    (with or without a count limit) has the name of a live row, so the lookup `Stat` and `Open`
+    perform on that name (`where name = ? and deleted != 1`) finds a row, and the row it finds
+    carries exactly that name. -/
+theorem listed_name_can_be_statted (rows : List Row) (prefix_ : Name) (d : Nat) (limit : Int) (r : Row)
+    (hr : r ∈ Idx.directQuery rows prefix_ false d limit) :
+    ∃ x, Idx.findLive rows r.name = some x ∧ x.name = r.name ∧ x.live = true := by
+  unfold Idx.directQuery at hr
+  simp only [Bool.false_eq_true, if_false, List.mem_map] at hr
+  obtain ⟨y, hy, rfl⟩ := hr
+  have hy' : y ∈ rows ∧ y.live = true := by
+    have : y ∈ rows.filter (fun r => like (prefix_ ++ [percent]) r.name
+        && (sqlDepth r.name prefix_ == d || (like [percent, slash] r.name && sqlDepth r.name prefix_ == d + 1))
+        && r.live && (false || r.linkname == []) && !(Idx.rootSpellings.contains r.name)) := by
+      split at hy
+      · exact List.mem_of_mem_take hy
+      · exact hy
+    simp only [List.mem_filter, Bool.and_eq_true] at this
+    exact ⟨this.1, this.2.1.1.2⟩
+  have hsome : (Idx.findLive rows y.name).isSome = true := by
+    unfold Idx.findLive
+    rw [List.find?_isSome]
+    exact ⟨y, Idx.mem_byName.mpr ⟨hy'.1, rfl⟩, hy'.2⟩
+  obtain ⟨x, hx⟩ := Option.isSome_iff_exists.mp hsome
+  refine ⟨x, hx, ?_, ?_⟩
+  · unfold Idx.findLive at hx
+    exact (Idx.mem_byName.mp (List.mem_of_find?_eq_some hx)).2
+  · unfold Idx.findLive at hx
+    exact List.find?_some hx
+
+/-- the premise is satisfiable: a one-row table whose row the query lists -/
+example : (Idx.directQuery [Idx.mkRow { name := n!"/a/b/c" } 0 0 0 0] (n!"/a/b/") false 0 0).length = 1 := by decide
+
+/-- (6) … with matching kind and size: when live rows have distinct names (no entry has both a
+    plain row and a link row alive — the hypothesis; the table's key is `(name, linkname)`, so the
+    model does not guarantee it; theorem (9) below needs only the primary key, which (7) proves
+    for every reachable state), the row
+    the lookup finds is the listed row itself, so every attribute `Stat` reports is the one the
+    listing showed. -/
+theorem listed_row_is_statted_row (rows : List Row) (prefix_ : Name) (d : Nat) (limit : Int) (r : Row)
+    (huniq : ∀ a ∈ rows, ∀ b ∈ rows, a.live = true → b.live = true → a.name = b.name → a = b)
+    (hr : r ∈ Idx.directQuery rows prefix_ false d limit) :
+    Idx.findLive rows r.name = some r := by
+  obtain ⟨x, hx, hn, hl⟩ := listed_name_can_be_statted rows prefix_ d limit r hr
+  have hxm : x ∈ rows := by
+    unfold Idx.findLive at hx
+    exact (Idx.mem_byName.mp (List.mem_of_find?_eq_some hx)).1
+  unfold Idx.directQuery at hr
+  simp only [Bool.false_eq_true, if_false, List.mem_map] at hr
+  obtain ⟨y, hy, rfl⟩ := hr
+  have hy' : y ∈ rows ∧ y.live = true ∧ y.linkname = [] := by
+    have : y ∈ rows.filter (fun r => like (prefix_ ++ [percent]) r.name
+        && (sqlDepth r.name prefix_ == d || (like [percent, slash] r.name && sqlDepth r.name prefix_ == d + 1))
+        && r.live && (false || r.linkname == []) && !(Idx.rootSpellings.contains r.name)) := by
+      split at hy
+      · exact List.mem_of_mem_take hy
+      · exact hy
+    simp only [List.mem_filter, Bool.and_eq_true, Bool.false_or, beq_iff_eq] at this
+    exact ⟨this.1, this.2.1.1.2, this.2.1.2⟩
+  have hxy : x = y := huniq x hxm y hy'.1 hl hy'.2.1 hn
+  subst hxy
+  rw [hx]
+  congr 1
+  obtain ⟨h, a, b, c, d', e⟩ := x
+  obtain ⟨n1, l1⟩ := h
+  simp only [Row.linkname] at hy'
+  simp [hy'.2.2]
+
+/-- (7) The table's primary key holds at every reachable state: after any history of calls
+    (successful or failing, including rebuilds) no two rows, tombstones included, share
+    `(name, linkname)`. -/
+theorem keys_unique_always (f : FsCfg) (hist : List (Env × Call)) :
+    KeysUnique ((({} : Sys).runAll f hist).w).idx.rows :=
+  Sys.runAll_pres (opsPres_rows rowsInv_keysUnique f) hist {} List.Pairwise.nil
+
+/-- the name-keyed listing query over a table with unique keys returns no name twice -/
+theorem directQuery_names_once (rows : List Row) (prefix_ : Name) (d : Nat) (limit : Int)
+    (h : KeysUnique rows) :
+    ((Idx.directQuery rows prefix_ false d limit).map (·.name)).Pairwise (· ≠ ·) := by
+  unfold Idx.directQuery
+  simp only [Bool.false_eq_true, if_false]
+  generalize hsel : rows.filter (fun r => like (prefix_ ++ [percent]) r.name
+        && (sqlDepth r.name prefix_ == d || (like [percent, slash] r.name && sqlDepth r.name prefix_ == d + 1))
+        && r.live && (false || r.linkname == []) && !(Idx.rootSpellings.contains r.name)) = sel
+  have hsub : sel.Sublist rows := by rw [← hsel]; exact List.filter_sublist
+  have hlink : ∀ x ∈ sel, x.linkname = [] := by
+    intro x hx
+    rw [← hsel] at hx
+    have := (List.mem_filter.mp hx).2
+    simp only [Bool.and_eq_true, Bool.false_or, beq_iff_eq] at this
+    exact this.1.2
+  generalize hS : (if limit > 0 then sel.take (limit + 1).toNat else sel) = S
+  have hS1 : S.Sublist sel := by
+    rw [← hS]; split
+    · exact List.take_sublist _ _
+    · exact List.Sublist.refl _
+  have hku : KeysUnique S := List.Pairwise.sublist (hS1.trans hsub) h
+  rw [List.map_map, List.pairwise_map]
+  refine hku.imp_of_mem ?_
+  intro a b ha hb hab hn
+  apply hab
+  exact ⟨hn, (hlink a (hS1.subset ha)).trans (hlink b (hS1.subset hb)).symm⟩
+
+/-- (8) "Each directory listing contains each of its children exactly once", for the name-keyed
+    pass of the listing and every reachable state: after any history, for every directory
+    prefix, depth and count limit, no name occurs twice among the rows the query returns.
+    (The link pass can repeat a name the name pass already returned: finding F11.) -/
+theorem listing_lists_each_name_once (f : FsCfg) (hist : List (Env × Call)) (prefix_ : Name) (d : Nat) (limit : Int) :
+    ((Idx.directQuery ((({} : Sys).runAll f hist).w).idx.rows prefix_ false d limit).map (·.name)).Pairwise (· ≠ ·) :=
+  directQuery_names_once _ prefix_ d limit (keys_unique_always f hist)
+
+/-- (9) … with matching kind and size, at every table with unique keys (hence, by
+    `keys_unique_always`, at every reachable state): the lookup `Stat` and `Open` perform on a
+    listed name finds exactly the listed row, so every attribute they report (kind, size, mode,
+    owner, times) is the one the listing showed.  (The scan `where name = ?` runs in primary-key
+    order, and the listed row has the empty linkname, which sorts first.) -/
+theorem listed_row_is_statted_row_of_keys (rows : List Row) (prefix_ : Name) (d : Nat) (limit : Int) (r : Row)
+    (hku : KeysUnique rows) (hr : r ∈ Idx.directQuery rows prefix_ false d limit) :
+    Idx.findLive rows r.name = some r := by
+  unfold Idx.directQuery at hr
+  simp only [Bool.false_eq_true, if_false, List.mem_map] at hr
+  obtain ⟨y, hy, rfl⟩ := hr
+  have hy' : y ∈ rows ∧ y.live = true ∧ y.linkname = [] := by
+    have : y ∈ rows.filter (fun r => like (prefix_ ++ [percent]) r.name
+        && (sqlDepth r.name prefix_ == d || (like [percent, slash] r.name && sqlDepth r.name prefix_ == d + 1))
+        && r.live && (false || r.linkname == []) && !(Idx.rootSpellings.contains r.name)) := by
+      split at hy
+      · exact List.mem_of_mem_take hy
+      · exact hy
+    simp only [List.mem_filter, Bool.and_eq_true, Bool.false_or, beq_iff_eq] at this
+    exact ⟨this.1, this.2.1.1.2, this.2.1.2⟩
+  have hblank : ({ y with hdr := { y.hdr with linkname := [] } } : Row) = y := by
+    obtain ⟨h, a, b, c, d', e⟩ := y
+    obtain ⟨n1, l1⟩ := h
+    simp only [Row.linkname] at hy'
+    simp [hy'.2.2]
+  rw [hblank]
+  have hall := keysUnique_forall hku
+  have hL : y ∈ rows.filter (fun r => r.name == y.name) := List.mem_filter.mpr ⟨hy'.1, by simp⟩
+  have hothers : ∀ x ∈ rows.filter (fun r => r.name == y.name), x ≠ y → x.linkname ≠ [] := by
+    intro x hx hxy hxl
+    have hxm := List.mem_filter.mp hx
+    exact hall x hxm.1 y hy'.1 hxy ⟨by simpa using hxm.2, hxl.trans hy'.2.2.symm⟩
+  have hnd : (rows.filter (fun r => r.name == y.name)).Pairwise (· ≠ ·) :=
+    List.Pairwise.sublist List.filter_sublist (hku.imp (fun {a b} hab he => hab (by subst he; exact ⟨rfl, rfl⟩)))
+  have hhead := head_sorted_of_empty_link _ y hL hy'.2.2 hothers hnd
+  unfold Idx.findLive Idx.byName
+  cases hS : (rows.filter (fun r => r.name == y.name)).foldr Idx.insertByLink [] with
+  | nil => rw [hS] at hhead; simp at hhead
+  | cons x xs =>
+    rw [hS] at hhead
+    simp only [List.head?_cons, Option.some.injEq] at hhead
+    subst hhead
+    simp [hy'.2.1]
+
+/-- (10) The same for every reachable state of the model. -/
+theorem listed_row_is_statted_row_always (f : FsCfg) (hist : List (Env × Call)) (prefix_ : Name) (d : Nat)
+    (limit : Int) (r : Row)
+    (hr : r ∈ Idx.directQuery ((({} : Sys).runAll f hist).w).idx.rows prefix_ false d limit) :
+    Idx.findLive ((({} : Sys).runAll f hist).w).idx.rows r.name = some r :=
+  listed_row_is_statted_row_of_keys _ prefix_ d limit r (keys_unique_always f hist) hr
+
 -- MIRRORS-BEGIN (maintained by bin/update-mirrors)
 /-- The parts of the model this file's theorems are about were written by hand against these
     versions of the functions they mirror (fingerprint of each function's comment-free source,
     regenerated on every run).  When one of them changes, this obligation fails: the change has
     to be confirmed harmless by the correspondence, or shows up as its failing input. -/
 theorem model_mirrors_source :
-    [(n!"persisters.MetadataPersister.GetHeaderDirectChildren"), (n!"inventory.List"), (n!"fs.File.Readdir")].map Gen.fingerprintOf =
-    [some 2258247360074540872, some 1808801976671958421, some 1495984426148824387] := by decide
+    [(n!"persisters.MetadataPersister.GetHeaderDirectChildren"), (n!"inventory.List"), (n!"fs.File.Readdir"), (n!"persisters.MetadataPersister.GetHeader"), (n!"recovery.indexHeader"), (n!"persisters.MetadataPersister.UpsertHeader"), (n!"persisters.MetadataPersister.UpdateHeaderMetadata"), (n!"persisters.MetadataPersister.MoveHeader"), (n!"persisters.MetadataPersister.DeleteHeader")].map Gen.fingerprintOf =
+    [some 2258247360074540872, some 1808801976671958421, some 1495984426148824387, some 2215020636047172842, some 1203388063636210460, some 1475075715614363495, some 1156983867159650422, some 431296354897121277, some 487247875105465038] := by decide
 -- MIRRORS-END
 
 end Stfs.C13
